@@ -150,7 +150,9 @@ def run(ctx):
                 cases.append((fn, (pvk, table, v, pan, 0, 12, "F")))
             for v in text_variants(rng, pan, 0, 19):
                 cases.append((fn, (pvk, table, "1234", v, 0, min(12, len(v)), "F")))
-            for v in list(HEX) + HOSTILE + ["", "FF", "0F", "G", "g"]:
+            runs = [alpha[i:i + k] for alpha in ("0123456789ABCDEFabcdef", "0123456789abcdefABCDEF", "0123456789ABCDEF", "0123456789abcdef")
+                    for k in (2, 3, 16) for i in range(0, len(alpha) - k + 1)]
+            for v in list(HEX) + HOSTILE + ["", "FF", "0F", "G", "g", "0123456789ABCDEFabcdef", "F ", " F", "F\n", "0x", "0xF"] + sorted(set(runs)):
                 cases.append((fn, (pvk, table, "1234", pan, 0, 12, v)))
             for off in range(0, 19):
                 for ln in (0, 1, 16 - off, 17 - off, 18):
